@@ -298,6 +298,26 @@ func propAssumptions(prop string) []string {
 			"C05: panics inside protobuf unmarshalling, fmt, redact, sentry are not decided (external)",
 			"C05: receivers of error-type methods are non-nil (T13)",
 		}
+	case "C03":
+		return []string{
+			"C03: redact.Sprintf/Sprint/Redact/StripMarkers are specified, not verified (T7): the redacted form of any redactable string is PII-free; marker escaping inside redact is not decided",
+			"C03: declared-safe sources are assumed PII-free: foreign SafeDetailer/SafeFormatter/SafeMessager implementations, ErrorKeyMarker, stdlib sentinel/errno/runtime error texts, Op/Net/Syscall fields of os and net errors, logtags keys, protobuf type URLs, type names",
+			"C03: an application-registered encoder returns PII-free reportable payloads (axioms registered_encoders_safe / registered_leaf_encoders_safe; proved for every encoder the library registers)",
+			"C03: the PII-free wire fields and errno leaf messages received from a peer satisfy the invariant EncodeError ensures on the peer (requires[C03] of DecodeError / decodeErrno)",
+			"C03: the formatting engine's escaping of non-redactable entries and the Sentry event fields are not covered by this check",
+		}
+	case "C12":
+		return []string{
+			"C12: presence of safe parts inside redact's renderings and inside the Sentry report is not decided (T7; C15 not claimed)",
+			"C12: induction over chain length composes the per-layer contracts through the recursive specifications allSD/foldSD (unfolded per obligation)",
+		}
+	case "C18":
+		return []string{
+			"C18: sufficient condition only (read-only frame); no thread schedule is explored by this technique",
+			"C18: external packages (fmt, redact, protobuf, sentry, logtags) do not write through error-owned pointers handed to them; only bytes.Buffer / strings.Builder mutators are modelled as writers",
+			"C18 (A18.1, structural rule only): objects reachable from per-call state (state, printers, buffers) are per-call",
+			"C18: init functions and the registration API (Register*, SetWarningFn, TestingWithEmptyMigrationRegistry) are excluded: concurrent registration is outside the property statement",
+		}
 	}
 	return nil
 }
